@@ -532,7 +532,7 @@ def mthi(arg1):
 
 @sbuild.parse
 def mtlo(arg1):
-    R_LOW = arg1
+    R_LO = arg1
 
 def clz(ir, instr, rs, rd):
     e = []
